@@ -349,6 +349,11 @@ func runC02(c *core.Ctx, o Options) {
 	checkValueExtraction(c, "R5")
 	// ---- R8 entries are cut at the whole first tag: the separator handed to splitGroup is SOH·firstTag·'='
 	checkGroupSeparator(c, "R8")
+	// … and every other search of the decoder recognises a tag only at a field boundary (a component or field judged absent
+	// because of a look-alike, or present because of one, breaks the round trip)
+	if enc := c.SSAPkg("fix/encoding"); enc != nil {
+		needleCensus(c, "R8", pkgFuncs(enc))
+	}
 	// ---- R6 splitGroup partition
 	{
 		paths, _ := an.EnumPaths(sg, 256)
@@ -453,71 +458,8 @@ func runC02(c *core.Ctx, o Options) {
 		c.Check(len(bad) == 0, "R6", "splitGroup", "pieces partition the input: each piece ends where the remainder starts; the last piece ends at the end", sg.Pos(), "upper cut = lower cut", strings.Join(bad, "; "))
 	}
 	// ---- R7 whole-slice loops with error-only early exit
-	for _, fn := range pkgFuncs(c.SSAPkg("fix/encoding")) {
-		spec := struct{ name string }{an.NameOf(fn)}
-		for _, lp := range loops(fn) {
-			inLp := map[*ssa.BasicBlock]bool{}
-			for _, b := range lp {
-				inLp[b] = true
-			}
-			// find the recursive/unmarshal call in the loop
-			var call *ssa.Call
-			var head *ssa.BasicBlock
-			for _, b := range lp {
-				for _, in := range b.Instrs {
-					if cl, ok := in.(*ssa.Call); ok && an.CalleeIs(&cl.Call, "fix/encoding", "state.unmarshal") {
-						call = cl
-					}
-					if bo, ok := in.(*ssa.BinOp); ok {
-						if phi := rangeIndexPhi(bo); phi != nil && phi.Comment == "rangeindex" {
-							head = phi.Block()
-						}
-					}
-				}
-			}
-			if call == nil || head == nil || call.Block().Comment != "rangeindex.body" {
-				continue
-			}
-			ia, ok := unload(call.Call.Args[2]).(*ssa.IndexAddr)
-			if !ok || rangeIndexPhi(ia.Index) == nil {
-				continue
-			}
-			over := an.Render(ia.X)
-			ob := c.Ob("R7", spec.name, "loop over "+over+" visits every item; early exit only with an error", call.Pos())
-			// bound: idx < len(over)
-			okBound := false
-			for _, ref := range *ia.Index.Referrers() {
-				if bo, ok := ref.(*ssa.BinOp); ok && bo.Op == token.LSS && an.Render(bo.Y) == "len("+over+")" {
-					okBound = true
-				}
-			}
-			// exits of the loop body: the error branch returns a non-nil error
-			okExit := true
-			for _, b := range lp {
-				if b.Comment != "rangeindex.body" || !inLp[b] {
-					continue
-				}
-				if iff, ok := b.Instrs[len(b.Instrs)-1].(*ssa.If); ok {
-					for i, s := range b.Succs {
-						if inLp[s] {
-							continue
-						}
-						// leaving the loop from the body: only on err != nil
-						bo, ok := iff.Cond.(*ssa.BinOp)
-						if !ok || !an.IsNilConst(bo.Y) || bo.X != ssa.Value(call) || !((bo.Op == token.NEQ && i == 0) || (bo.Op == token.EQL && i == 1)) {
-							okExit = false
-						}
-					}
-				}
-			}
-			if okBound && okExit {
-				ob.Ok("range over the whole slice; leaves early only when an item fails to parse")
-			} else {
-				ob.Fail("whole slice: %v; early exit only on error: %v — items after the exit would silently stay empty", okBound, okExit)
-			}
-		}
-	}
-	c.RuleMin = map[string]int{"R1": 28, "R2": 1, "R3": 4, "R4": 1, "R5": 2, "R6": 1, "R7": 3, "R8": 2}
+	checkItemLoops(c, "R7")
+	c.RuleMin = map[string]int{"R1": 28, "R2": 1, "R3": 4, "R4": 1, "R5": 2, "R6": 1, "R7": 3, "R8": 8}
 	c.MinObl = 30
 }
 
@@ -754,5 +696,101 @@ func checkTemplateRebuild(c *core.Ctx, rule string) {
 			}
 		}
 		c.Check(len(bad) == 0, rule, name, "rebuilds every item (KeyValue, Group, Component) as an empty copy of the same kind at the same index", fn.Pos(), "3 cases", strings.Join(bad, "; "))
+	}
+}
+
+// checkItemLoops: every loop of the decoder that parses template items ranges over the whole slice and leaves early only by
+// returning the (non-nil) error of the item just parsed — a dropped or shadowed error lets a damaged field pass as parsed.
+func checkItemLoops(c *core.Ctx, rule string) {
+	for _, fn := range pkgFuncs(c.SSAPkg("fix/encoding")) {
+		spec := struct{ name string }{an.NameOf(fn)}
+		for _, lp := range loops(fn) {
+			inLp := map[*ssa.BasicBlock]bool{}
+			for _, b := range lp {
+				inLp[b] = true
+			}
+			// find the recursive/unmarshal call in the loop
+			var call *ssa.Call
+			var head *ssa.BasicBlock
+			for _, b := range lp {
+				for _, in := range b.Instrs {
+					if cl, ok := in.(*ssa.Call); ok && an.CalleeIs(&cl.Call, "fix/encoding", "state.unmarshal") {
+						call = cl
+					}
+					if bo, ok := in.(*ssa.BinOp); ok {
+						if phi := rangeIndexPhi(bo); phi != nil && phi.Comment == "rangeindex" {
+							head = phi.Block()
+						}
+					}
+				}
+			}
+			if call == nil || head == nil || call.Block().Comment != "rangeindex.body" {
+				continue
+			}
+			ia, ok := unload(call.Call.Args[2]).(*ssa.IndexAddr)
+			if !ok || rangeIndexPhi(ia.Index) == nil {
+				continue
+			}
+			over := an.Render(ia.X)
+			ob := c.Ob(rule, spec.name, "loop over "+over+" visits every item; early exit only with an error", call.Pos())
+			// bound: idx < len(over)
+			okBound := false
+			for _, ref := range *ia.Index.Referrers() {
+				if bo, ok := ref.(*ssa.BinOp); ok && bo.Op == token.LSS && an.Render(bo.Y) == "len("+over+")" {
+					okBound = true
+				}
+			}
+			// exits of the loop body: the error branch returns a non-nil error
+			okExit := true
+			for _, b := range lp {
+				if b.Comment != "rangeindex.body" || !inLp[b] {
+					continue
+				}
+				if iff, ok := b.Instrs[len(b.Instrs)-1].(*ssa.If); ok {
+					for i, s := range b.Succs {
+						if inLp[s] {
+							continue
+						}
+						// leaving the loop from the body: only on err != nil
+						bo, ok := iff.Cond.(*ssa.BinOp)
+						if !ok || !an.IsNilConst(bo.Y) || bo.X != ssa.Value(call) || !((bo.Op == token.NEQ && i == 0) || (bo.Op == token.EQL && i == 1)) {
+							okExit = false
+						}
+					}
+				}
+			}
+			// … and the item's error is what the function then returns (not dropped, not shadowed)
+			okErr := true
+			paths, _ := an.EnumPaths(fn, 4096)
+			nErr := 0
+			for _, p := range paths {
+				if p.Return == nil || !p.Passes(call) || len(p.Results) == 0 {
+					continue
+				}
+				failed := false
+				for _, a := range p.Atoms {
+					if bo, ok := a.Val.(*ssa.BinOp); ok && a.Rel == "!=" && a.R == "nil" && (bo.X == ssa.Value(call) || bo.Y == ssa.Value(call)) {
+						failed = true
+					}
+				}
+				if !failed {
+					continue
+				}
+				nErr++
+				if r := p.Results[len(p.Results)-1]; r == "nil" {
+					okErr = false
+				}
+			}
+			if nErr == 0 {
+				okErr = false
+			}
+			if okBound && okExit && okErr {
+				ob.Ok("range over the whole slice; leaves early only when an item fails to parse")
+			} else if okBound && okExit {
+				ob.Fail("an item's parse error is not returned: the function returns nil although %s failed (dropped or shadowed error) — a damaged field passes as parsed", an.Render(call))
+			} else {
+				ob.Fail("whole slice: %v; early exit only on error: %v — items after the exit would silently stay empty", okBound, okExit)
+			}
+		}
 	}
 }
